@@ -5,6 +5,7 @@ mod fields;
 mod fields_gen;
 mod msgs;
 mod text;
+mod sig;
 
 pub struct Rng(pub u64);
 impl Rng {
@@ -191,6 +192,8 @@ fn main() {
             "msmperm" => match msgs::msm_perm_search(&mut rng, budget.min(20000)) { Ok(n) => n, Err((p, why)) => found("msmperm", &p, &[], &why, 0) },
             "builder" => match msgs::builder_search(&mut rng, budget.min(4000)) { Ok(n) => n, Err((p, why)) => found("builder", &p, &[], &why, 0) },
             "classify" => match msgs::classify_search(&mut rng) { Ok(n) => n, Err((p, why)) => found("classify", &p, &[], &why, 0) },
+            "biasq" => match msgs::biasq_search() { Ok(n) => n, Err((p, why)) => found("biasq", &p, &[], &why, 0) },
+            "sigcmp" => match sig::search(&mut rng, budget) { Ok(n) => n, Err((p, why)) => found("sigcmp", &p, &[], &why, 0) },
             "msgs" => match msgs::search(&mut rng, budget) { Ok(n) => n, Err((p, why)) => found("msgs", &p, &[], &why, 0) },
             "lossless" | "quant" => {
                 let only = a.get(5).cloned();
@@ -253,6 +256,8 @@ fn main() {
             "msmperm" => { let mut rng = Rng(0x1234567); msgs::msm_perm_search(&mut rng, 5000).err().map(|e| e.1) }
             "builder" => { let mut rng = Rng(0x1234567); msgs::builder_search(&mut rng, 2000).err().map(|e| e.1) }
             "classify" => { let mut rng = Rng(0x1234567); msgs::classify_search(&mut rng).err().map(|e| e.1) }
+            "sigcmp" => sig::check(&inp),
+            "biasq" => if inp.len() >= 6 { msgs::biasq_one(inp[0], i32::from_le_bytes([inp[1], inp[2], inp[3], inp[4]]), inp[5] as usize) } else { None },
             "corrupt" => { use rtcm_rs::prelude::*; if MessageFrame::new(&inp).is_ok() || next_msg_frame(&inp).1.is_some() { Some("corrupted frame accepted/delivered".to_string()) } else { None } }
             k => { eprintln!("unknown kind {}", k); std::process::exit(2) }
         };
